@@ -18,6 +18,7 @@ NAMES = {
     "C04": ["C04a", "C04b", "C04c"],
     "C05": ["C05"],
     "C06": None,  # every predicate, on fault transitions and on everything reachable after a fault
+    "C07": ["C07"],
     "C09": ["C09"],
     "C10": ["C10a", "C10b"],
     "C11": ["C11a", "C11b", "C11c", "C11d"],
@@ -36,7 +37,9 @@ def _cfgs(prop, tier):
 PROPS = set(NAMES.keys())
 
 # function-level drivers that decide a part of a closed-loop property (lib/fn/<name>.json)
-EXTRA_FN = {"C01": ["arith"], "C07": ["arith"]}
+EXTRA_FN = {"C01": ["arith"], "C07": ["arith", "gateway", "ingress", "custom"]}
+# predicates of those drivers that belong to the closed-loop property (None = the descriptor's own list)
+EXTRA_FN_NAMES = {("C07", "arith"): ["A_sufficient"], ("C07", "gateway"): ["G5"], ("C07", "ingress"): ["I5"], ("C07", "custom"): ["N4"]}
 
 ASSUMPTIONS = [
     "bounded: only the configurations, plans, replica counts, action alphabets and budgets listed in coverage.configs were explored",
@@ -136,10 +139,15 @@ def check(prop, tier):
     c06 = {}
     if prop == "C06":
         c06 = c06_finals(results, violations, known)
+    live = []
+    if prop == "C07":
+        live = c07_liveness(results, violations, known)
     fn_cov = []
     import fnlevel
     for dn in EXTRA_FN.get(prop, []):
-        d = fnlevel.descriptors()[dn]
+        d = dict(fnlevel.descriptors()[dn])
+        if (prop, dn) in EXTRA_FN_NAMES:
+            d["names"] = EXTRA_FN_NAMES[(prop, dn)]
         v, k, c = fnlevel.run_descriptor(d, tier, prop)
         for payload in v:
             violations.append({"property": prop, "predicate": payload["predicate"], "cfg": "fn:" + dn, "path": ["case %d" % payload["case"]["id"]],
@@ -175,7 +183,7 @@ def check(prop, tier):
                 "non-trivial = the antecedent of one of this property's predicates held on it (counted by TLC, per predicate in predicate_hits)",
         "predicate_hits": counts, "predicates_exercised": exercised, "configs": cfg_cov,
         "drift": drift, "unmodelled": unmodelled, "aliasing": aliasing, "real_panics": panics,
-        "model_check": model, "function_level": fn_cov, "final_state_equality": c06, "known_findings_reported": [k["id"] for k, _ in known],
+        "model_check": model, "function_level": fn_cov, "final_state_equality": c06, "liveness_on_impl_graph": live, "known_findings_reported": [k["id"] for k, _ in known],
         "exhaustive": all(not c["truncated"] for c in cfg_cov),
     }
     vlib.write_evidence(prop, tier, "model_checking", cov, time.time() - t0, len(violations), ASSUMPTIONS)
@@ -227,6 +235,49 @@ def c06_finals(results, violations, known):
                 known.append((kf, payload))
             else:
                 violations.append(payload)
+    return out
+
+
+def c07_liveness(results, violations, known):
+    """C07: TLC checks Termination (under weak fairness of controllers, environment, time, release and
+    approvals) on the transition graph recorded from the REAL code under queue discipline."""
+    import re
+    import shutil
+    out = []
+    for cfgname, prefix, meta, res, wall in results:
+        cfg, _ = vlib.load_cfg(cfgname)
+        if not cfg.get("queue") or meta["truncated"]:
+            continue
+        cached = prefix + ".live.json"
+        if os.path.exists(cached):
+            r = json.load(open(cached))
+        else:
+            wd = vlib.scratch("live-%s-%d" % (cfgname, os.getpid()))
+            t0 = time.time()
+            rc, txt = vlib.tlc("RolloutsImplGraph.tla", "RolloutsImplGraph.cfg", wd, env={"VERIF_STATES": prefix + ".states", "VERIF_TRANS": prefix + ".trans"},
+                               workers=4, timeout=3000, heap="10g")
+            shutil.rmtree(wd, ignore_errors=True)
+            m = re.search(r"(\d+) states generated, (\d+) distinct states found", txt)
+            r = {"cfg": cfgname, "rc": rc, "wall_s": round(time.time() - t0, 1), "violated": "Temporal property Termination was violated" in txt}
+            if m:
+                r["transitions"], r["states"] = int(m.group(1)), int(m.group(2))
+            if r["violated"]:
+                curs = [int(x) for x in re.findall(r"/\\ cur = (\d+)", txt)]
+                acts = re.findall(r'/\\ act = "([^"]*)"', txt)
+                r["lasso_states"], r["lasso_acts"] = curs, acts
+            elif rc != 0 or "Error:" in txt or not m:
+                raise Inconclusive("TLC liveness run failed for %s:\n%s" % (cfgname, txt[-3000:]))
+            json.dump(r, open(cached, "w"))
+        out.append({k: v for k, v in r.items() if k not in ("lasso_states",)})
+        if r.get("violated"):
+            run = vlib.Run(prefix)
+            first = r["lasso_states"][0] if r.get("lasso_states") else 1
+            acts = [a for a in r.get("lasso_acts", []) if a != "init"]
+            sig = {"name": "C07live", "cfg": cfgname}
+            payload = {"property": "C07", "predicate": "C07live", "cfg": cfgname, "path": acts, "signature": sig,
+                       "note": "fair non-terminating behaviour of the real controllers (TLC lasso over the recorded implementation graph)"}
+            kf = vlib.match_known("C07", sig)
+            (known if kf else violations).append((kf, payload) if kf else payload)
     return out
 
 
